@@ -15,7 +15,7 @@ CONSTANTS
   LoadResults = {"ok", "notfound", "error", "cut_s", "cut_r", "cut_c", "badstatus"}
   SaveResults = {TRUE, FALSE}
   Jumps = {1}
-  MaxTicks = 2
+  MaxTicks = 1
   MaxStarts = 3
   MaxVer = 3
   MaxEnt = 3
